@@ -15,6 +15,8 @@ namespace GoCo
 structure Store where
   cells : List Int := [0, 0, 0, 0]
   log : List String := []      -- newest first
+  depth : Nat := 0             -- K2: Go frames pushed so far in this advance (set by the driver)
+  logDepth : Bool := false     -- K2: tag every event with the depth at which its callback runs
 deriving Repr
 
 def Store.get (s : Store) (j : Nat) : Int := s.cells.getD (j % 4) 0
@@ -44,8 +46,11 @@ structure Script where
   pn : Option String
 deriving Repr
 
-def Script.store (tag : String) (sc : Script) (recv : Int) (st : Store) : Store :=
-  sc.acts.foldl (Act.run recv) (st.emit (tag ++ toString sc.id))
+/-- frames between the transition that calls a callback and the callback's own frame: the callback
+    itself (+1); a plain `Bind` thunk is wrapped once more by mkNext (seq.go 57-59) -/
+def Script.store (tag : String) (sc : Script) (recv : Int) (st : Store) (extra : Nat := 1) : Store :=
+  let ev := if st.logDepth then s!"{tag}{sc.id}@{st.depth + extra}" else tag ++ toString sc.id
+  sc.acts.foldl (Act.run recv) (st.emit ev)
 
 /-- condition: `cells[j] < n` after the script ran -/
 structure CCond where
@@ -79,11 +84,12 @@ def build : CTerm → Store → Term Store Int String
   | .ret, _ => .sig .ret 0
   | .retv v, st => .sig .ret (v.eval st)
   | .bind v th body, st =>
+      let extra := if th.acts.any (fun a => match a with | .recvTo _ => true | _ => false) then 1 else 2
       .bind (v.eval st)
         (fun recv st' => match th.pn with
           | some p => .panic p
-          | none => build body (th.store "t" recv st'))
-        (fun recv st' => th.store "t" recv st')
+          | none => build body (th.store "t" recv st' extra))
+        (fun recv st' => th.store "t" recv st' extra)
   | .delay th body, _ =>
       .delay
         (fun st' => match th.pn with
